@@ -175,7 +175,7 @@ func sweepSpaces(thorough bool, seed uint64) []space {
 	nLen := uint64(1)<<15 + 2
 	if thorough {
 		rad = 1 << 18
-		nLen = 1<<17 + 2
+		nLen = 1<<16 + 2
 	}
 	per := uint64(2*rad + 1)
 	hexaMag := func(i uint64) int64 {
